@@ -297,6 +297,14 @@ def run(ctx: Ctx):
     ctx.assume("numpy.searchsorted(p, x) is the number of points below x on an increasing grid")
     r_affine(ctx, model, tr)
     r_window(ctx, model)
+    # module-level state: only the declared write-once caches, guarded and keyed by the full argument (shared with C04 R-module)
+    from ..effects import Effects
+    from .C04 import r_module
+    mods = ("pygaps.characterisation.area_bet", "pygaps.characterisation.area_lang", "pygaps.characterisation.t_plots",
+            "pygaps.characterisation.alphas_plots", "pygaps.characterisation.dr_da_plots", "pygaps.characterisation.models_thickness")
+    eps = [f for mn, m in model.modules.items() if mn in mods for n_, f in m.functions.items() if not n_.startswith("_")]
+    ctx.floor("linearised-characterisation entry points", len(eps), 12)
+    r_module(ctx, model, Effects(model), eps, prop="C14", rule="L-fresh", write_once=["pygaps.characterisation.models_thickness._LOADED"], memo=False)
     from ..sites import no_memoisation
     ctx.rule("L-fresh: no caching decorator on any function of pygaps.characterisation.")
     no_memoisation(ctx, load(ctx.root), "C14", "L-fresh", ('pygaps.characterisation.',),
